@@ -1,7 +1,8 @@
 ---------------------------- MODULE MC_RefCount ----------------------------
 (* Exhaustive configuration of RefCount: full state, small constants.     *)
-(* Kinds "stream" and "metabuf" have the same capabilities as "rawdata"  *)
-(* and "geninfo" (same transitions); they are exercised by Gen/Trace.     *)
+(* Kind "metabuf" has the same capabilities as "geninfo" (same            *)
+(* transitions); it is exercised by Gen/Trace.  "stream" adds the         *)
+(* notifier as a holder and is model checked itself.                      *)
 EXTENDS RefCount
 View == <<kind, holds, copyh, hascopy, extra, defer, made, cnt, alive, snd, tries, inner, origin, tlen>>   \* obs is an observation, not state
 (* quick tier only: rejected-reply retries and a cleared send callback are not combined with an   *)
